@@ -213,8 +213,11 @@ def main(argv=None):
         path = os.path.join(rdir, '%s-%d.json' % (a.tier, n))
         v = vs[0]
         with open(path, 'w') as fh:
-            json.dump(dict(property=cid, kind=v.get('kind'), features=v.get('features', []), detail=v.get('detail'),
-                           count=len(vs), seed=seed, tier=a.tier, **(v.get('replay') or {})), fh, indent=1, default=str)
+            std = dict(property=cid, kind=v.get('kind'), features=v.get('features', []), detail=v.get('detail'),
+                       count=len(vs), seed=seed, tier=a.tier)
+            rec = {('case_' + k if k in std else k): val for k, val in (v.get('replay') or {}).items()}
+            rec.update(std)
+            json.dump(rec, fh, indent=1, default=str)
         lines.append('VIOLATION property=%s replay=%s' % (cid, path))
         lines.append('  [%d case(s)] %s: %s' % (len(vs), s, str(v.get('detail', ''))[:600]))
     unmet = list(mod.floors(m, a.tier)) if hasattr(mod, 'floors') else []
